@@ -81,11 +81,12 @@ type Corruption struct {
 }
 
 type Exchange struct {
-	Op  int
-	Q   Request
-	R   Response
-	Bad string // SpecCheck verdict ("" = allowed)
-	Hit bool   // this response was corrupted
+	Op         int
+	Q          Request
+	R          Response
+	Bad        string // SpecCheck verdict ("" = allowed)
+	Hit        bool   // this response was corrupted
+	OrigStatus int    // status before the corruption
 }
 
 type kv struct {
@@ -599,12 +600,13 @@ func (g *Registry) Do(req *http.Request) (*http.Response, error) {
 	}
 	r := g.handle(q)
 	hit := false
+	orig := r.Status
 	if g.Corrupt != nil && g.Corrupt.K == g.N {
 		corrupt(g.Corrupt, &r)
 		hit = true
 	}
 	g.N++
-	g.Log = append(g.Log, Exchange{Op: g.CurOp, Q: q, R: r, Bad: bad, Hit: hit})
+	g.Log = append(g.Log, Exchange{Op: g.CurOp, Q: q, R: r, Bad: bad, Hit: hit, OrigStatus: orig})
 	resp := g.concrete(req, r)
 	if g.WarnEvery > 0 && g.N%g.WarnEvery == 0 {
 		t1 := fmt.Sprintf("verif warning %d", g.N)
